@@ -1,4 +1,5 @@
 import facts
+import httpd_static
 from vcheck import coq_bytes
 from props_common import HARNESS_TB, EXTRACT_TB
 
@@ -72,14 +73,14 @@ def c05_sig(line):
 ID = "C05"
 CFG = dict(
     propfile="Properties/C05.v",
-    coq_deps=["Lib/RouteBytes", "Lib/RouteSpec", "Model/Router", "Proofs/RouterP", "Model/StorePool", "Proofs/StorePoolP",
+    coq_deps=["Lib/RouteBytes", "Lib/RouteSpec", "Model/Router", "Proofs/RouterP", "Lib/CounterFacts", "Model/StorePool", "Proofs/StorePoolP",
               "Properties/C05", "Check/C04", "Check/C05", "Lib/Lockset", "Proofs/LocksetP"],
     ocaml="c05",
     race=True,
-    static=[facts.C05_FACTS],
+    static=[facts.C05_FACTS, httpd_static.counter_static, httpd_static.smoke386("C05")],
     casesv=c05_casesv,
     sig=c05_sig,
-    coq_sample={"quick": 60, "thorough": 200},
+    coq_sample={"quick": 25, "thorough": 120},
     rule=("one evaluation = one request served by a real Mux inside a history and compared (a) in Go with the same request on a FRESH Mux "
           "with the routes registered at that time and (b) by the extracted specification/model replay of the whole history; "
           "histories: 1-40 operations from one goroutine (registrations between requests incl. HandleNoRoute/HandleRelay again, routes with "
@@ -102,7 +103,8 @@ CFG = dict(
                  "mux.mu, so registering while requests are served is a data race in the code; the property quantifies over routes "
                  "registered before or after earlier requests, not during (model: LRegister is enabled only with no request in flight)",
                  "a rejected registration (Handle panics) ends the history (see C04: partially created trie nodes)",
-                 "ids are unique until the uint64 counter wraps (2^64 requests per Mux)",
+                 "ids are unique until the 64-bit counter wraps (2^64 requests per Mux); that the counter of the source at hand IS 64 bits "
+                 "wide and rendered untruncated is a static obligation checked on every run (gen/c05counter + Lib/CounterFacts.v), not an assumption",
                  "a handler does not keep the *Store (or the string returned by GetID, which aliases the Store's buffer) after it returns",
                  "W.Status changes only through the request's own actions: WriteHeader / Write (model label LWrite k (WriteHeader c)), "
                  "Flush / FlushError (LWrite k Flush: 200 if it was 0) and the relay's own bookkeeping (Logger.Relay sets 200 at REQ_END and "
